@@ -5,7 +5,7 @@
    theorems below are full strength. *)
 From Coq Require Import List Arith NArith Bool Permutation Lia.
 Import ListNotations.
-From Verif.C04 Require Import Model Proofs ProofsKeys ProofsSet ProofsSetEq.
+From Verif.C04 Require Import Model Proofs ProofsKeys ProofsSet ProofsSetEq ProofsInv.
 
 (* ---------------------------------------------------------------------------------------------- *)
 (* 1. The define decision table: goja's _defineOwnProperty = ValidateAndApplyPropertyDescriptor, for
@@ -132,15 +132,44 @@ Proof. vm_compute. repeat split. Qed.
       value, receiver and prototype chain — setters and non-writable properties on the chain, receiver
       inside or outside the chain, accessor / non-writable / missing property on the receiver — the result,
       the accessor calls and the resulting heaps agree.  Hypotheses: the representation invariant (kept by
-      define: define_step_wf) and soundness of idxPropCount (what idxcount_exact proves of the bookkeeping).
+      define: define_step_wf) and the bookkeeping invariant heap_ok, which holds along every history
+      (bookkeeping_invariant) and yields the soundness of idxPropCount (idxcount_sound).
       Corollaries on both sides: only the receiver can change. *)
 
+(* the bookkeeping invariant (propNames / lastSortedPropLen / idxPropCount consistent with the values map,
+   keys unique) holds along EVERY history of I-operations from any heap that has it (e.g. fresh objects),
+   and it implies that idxPropCount = 0 after ordering means "no index key" *)
+Theorem bookkeeping_invariant : forall (ops : list op) (h : iheap), heap_ok h -> heap_ok (irun h ops).
+Proof. exact ProofsInv.irun_ok. Qed.
+
+Theorem bookkeeping_initial : forall n, heap_ok (repeat iobj0 n).
+Proof. exact ProofsInv.heap_ok_empty_objects. Qed.
+
+Theorem idxcount_sound : forall h, heap_ok h -> idx_sound h.
+Proof. exact ProofsInv.heap_ok_idx_sound. Qed.
+
 Theorem set_eq_spec : forall (h : iheap) (hs : heap) o k num v r,
-  heap_rel h hs -> heap_wf h -> idx_sound h ->
+  heap_rel h hs -> heap_wf h -> heap_ok h ->
   heap_rel (fst (fst (istep h (OSet o k num v r)))) (fst (fst (sstep hs (OSet o k num v r)))) /\
   snd (fst (istep h (OSet o k num v r))) = snd (fst (sstep hs (OSet o k num v r))) /\
   snd (istep h (OSet o k num v r)) = snd (sstep hs (OSet o k num v r)).
-Proof. exact ProofsSetEq.set_eq_spec. Qed.
+Proof. exact ProofsInv.set_eq_spec_ok. Qed.
+
+(* [[Get]] (with receiver), [[HasProperty]] and [[GetOwnProperty]] on related heaps *)
+Theorem get_eq_spec : forall (h : iheap) (hs : heap) o k r,
+  heap_rel h hs -> heap_wf h ->
+  snd (fst (istep h (OGet o k r))) = snd (fst (sstep hs (OGet o k r))) /\
+  snd (istep h (OGet o k r)) = snd (sstep hs (OGet o k r)) /\
+  fst (fst (istep h (OGet o k r))) = h.
+Proof. exact ProofsSetEq.get_eq_spec. Qed.
+
+Theorem has_eq_spec : forall (h : iheap) (hs : heap) o k,
+  heap_rel h hs -> snd (fst (istep h (OHas o k))) = snd (fst (sstep hs (OHas o k))).
+Proof. exact ProofsSetEq.has_eq_spec. Qed.
+
+Theorem getown_eq_spec : forall (h : iheap) (hs : heap) o k,
+  heap_rel h hs -> snd (fst (istep h (OGetOwn o k))) = snd (fst (sstep hs (OGetOwn o k))).
+Proof. exact ProofsSetEq.getown_eq_spec. Qed.
 
 Theorem set_only_receiver : forall fuel (h : heap) o k v r,
   (forall j, j <> r -> hget (fst (fst (s_set fuel h o k v r))) j = hget h j) /\
@@ -189,7 +218,13 @@ Print Assumptions ownkeys_unique.
 Print Assumptions ownkeys_same_set.
 Print Assumptions idxcount_exact.
 Print Assumptions sort_idx_is_sorted.
+Print Assumptions bookkeeping_invariant.
+Print Assumptions bookkeeping_initial.
+Print Assumptions idxcount_sound.
 Print Assumptions set_eq_spec.
+Print Assumptions get_eq_spec.
+Print Assumptions has_eq_spec.
+Print Assumptions getown_eq_spec.
 Print Assumptions set_only_receiver.
 Print Assumptions goja_set_only_receiver.
 Print Assumptions set_f2_case_agrees.
